@@ -480,6 +480,7 @@ func (w *World) threadAlts(th *thread) (alts []alt, hasDefault bool) {
 			case "load":
 				r.data = clone(st.m[r.key])
 			case "save":
+				r.val = flat(r.bufs)
 				st.m[r.key] = clone(r.val)
 			case "delete":
 				delete(st.m, r.key)
@@ -492,6 +493,9 @@ func (w *World) threadAlts(th *thread) (alts []alt, hasDefault bool) {
 		}})
 		if f.Store[r.op] && w.allow("store") {
 			alts = append(alts, alt{label: fmt.Sprintf("%s store.%s %#x FAIL", th.name, r.op, r.key), cost: F, do: func() {
+				if r.op == "save" {
+					r.val = flat(r.bufs)
+				}
 				r.n = 1
 				r.err = errSimStore
 				w.logStore(r.op, r.key, r.val, errSimStore)
